@@ -208,6 +208,6 @@ Proof.
   assert (Cq: c1 = c2).
   { subst c1 c2. f_equal. unfold claim_instrs. simpl. f_equal. f_equal. unfold lemma_pat.
     rewrite <- (same_img d1 d2 SK). f_equal. apply img_sid_ext. intros k Hk. apply AG.
-    unfold X. rewrite flat_map_app. apply in_or_app. right. simpl. rewrite app_nil_r. exact Hk. }
-  subst g2 c2. exists g1, c1, p1, p2, s31, s32. repeat split; assumption.
+    unfold X. rewrite flat_map_app. apply in_or_app. right. cbn [rev app map flat_map]. rewrite app_nil_r. exact Hk. }
+  clear EG1 EC1 EG2 EC2. subst g2 c2. exists g1, c1, p1, p2, s31, s32. repeat split; assumption.
 Qed.
